@@ -178,7 +178,8 @@ theorem C02_pack_wellformed (h : C02Scope fs cwd o src)
 
 /-- **C02_roundtrip_model_partial.** The composed statement, with the Unpack half — the
 conclusion of `C15_refines_partial` (Props/C15r) for a destination `dst` in a filesystem `fs'` —
-as the hypothesis `hRef`: for every well-formed archive without deep extended headers whose
+as the hypothesis `hRef`: for every well-formed archive without deep extended headers (the sufficient condition
+`UrXFlat` of Props/C15r; `C15_refines_partial` itself asks less, `UrXFree`) whose
 extraction paths are shorter than the resolver's fuel, `Unpack` succeeds and leaves below `dst`
 exactly the tree `untar` reads.  Then `Unpack` of `Pack`'s output succeeds and below `dst` the
 filesystem is the source tree: at every non-empty relative path `r` the node is
